@@ -279,6 +279,7 @@ func genProgram(r *rand.Rand, name string) *prog {
 	for i := 0; i < nMid; i++ {
 		s := gstruct{Name: "E" + string(rune('1'+i)), Methods: g.methods(r.IntN(4), true, false),
 			Embeds: embedsFrom(leaves, r.IntN(3))}
+		g.shadowFields(&s)
 		p.Structs = append(p.Structs, s)
 		mids = append(mids, cand{named(g.self, s.Name), true, 1})
 		if len(s.Methods) > 0 {
@@ -293,6 +294,7 @@ func genProgram(r *rand.Rand, name string) *prog {
 		all = append(all, mids...) // favour the two-level ones
 		orig.Embeds = embedsFrom(all, 1+r.IntN(3))
 	}
+	g.shadowFields(&orig)
 	// a share of programs outside the quantifier (never gating; compared with the model only):
 	// a third level of embedding, or a channel type (not handled by ExtractTypeRef)
 	switch r.IntN(14) {
@@ -532,4 +534,69 @@ func embedNameProgram(r *rand.Rand, name, kind string, spec map[string][]int) *p
 	}
 	p.Structs = append(p.Structs, orig)
 	return p
+}
+
+var fieldTypes = []*gty{basic("int"), basic("string"), fn(nil, false, nil),
+	fn([]gpar{par("", basic("int"))}, false, []gpar{par("", tErr)}), ptr(basic("bool")), slice(basic("byte"))}
+
+// fieldShadowProgram: structs with exactly ONE embedded field (sometimes two) and plain fields —
+// of func type and of other types — named like methods of the embedded type or of the type
+// embedded in that one.  In Go a field at a shallower depth hides a promoted method of the same
+// name, so such a method is not in the method set and must not be rendered.
+func fieldShadowProgram(r *rand.Rand, name, kind string) *prog {
+	p := &prog{Name: name, Kind: kind, Targets: []string{"Original", "E"}}
+	g := &gen{r: r, self: self(p)}
+	p.RenameA = map[string]string{pRen: "rr"}
+	p.RenameB = map[string]string{pPlain: "pl", pV2: "vv", pThird: "thr", "context": "cx"}
+	simple := func(nm string) gmeth {
+		ps, v, rs := g.sig(2, 2)
+		return gmeth{Name: nm, PtrRecv: r.IntN(2) == 0, Ps: ps, Variadic: v, Rs: rs}
+	}
+	field := func(nm string) gfield { return gfield{Name: nm, T: pick(r, fieldTypes)} }
+	leaf := gstruct{Name: "L", Methods: []gmeth{simple("Get"), simple("Deep"), simple("helper")}}
+	mid := gstruct{Name: "E", Embeds: []gembed{{T: named(g.self, "L"), Ptr: r.IntN(2) == 0}},
+		Methods: []gmeth{simple("Foo"), simple("Bar"), simple("Baz")}}
+	if r.IntN(2) == 0 {
+		mid.Fields = append(mid.Fields, field("Get")) // hides L.Get already at E
+	}
+	if r.IntN(3) == 0 {
+		mid.Fields = append(mid.Fields, field("helper"))
+	}
+	orig := gstruct{Name: "Original", Embeds: []gembed{{T: named(g.self, "E"), Ptr: r.IntN(2) == 0}},
+		Methods: []gmeth{{Name: "Own"}}}
+	for _, nm := range []string{"Foo", "Bar", "Deep", "Get", "Unrelated"} {
+		if r.IntN(2) == 0 {
+			orig.Fields = append(orig.Fields, field(nm))
+		}
+	}
+	if len(orig.Fields) == 0 {
+		orig.Fields = append(orig.Fields, field("Foo"))
+	}
+	if r.IntN(4) == 0 { // a second embedded field: the pinned single-field shortcut does not apply
+		orig.Embeds = append(orig.Embeds, gembed{T: named(pPlain, "E2")})
+	}
+	p.Structs = []gstruct{leaf, mid, orig}
+	return p
+}
+
+// shadowFields: now and then a plain field named like a method from the pool (never like one of
+// the struct's own methods or embedded types — Go rejects that)
+func (g *gen) shadowFields(s *gstruct) {
+	if len(s.Embeds) == 0 || g.r.IntN(4) != 0 {
+		return
+	}
+	taken := map[string]bool{}
+	for _, m := range s.Methods {
+		taken[m.Name] = true
+	}
+	for _, e := range s.Embeds {
+		taken[e.T.Name] = true
+	}
+	for k := 1 + g.r.IntN(2); k > 0; k-- {
+		nm := pick(g.r, append(append([]string{}, exportedNames...), unexportedNames...))
+		if !taken[nm] {
+			taken[nm] = true
+			s.Fields = append(s.Fields, gfield{Name: nm, T: pick(g.r, fieldTypes)})
+		}
+	}
 }
